@@ -123,3 +123,41 @@ SPEC_ENTRY = {'title': 'Command/response drivers encode requests per spec and ch
    'the first query, which runs set_up: for every answer of the device to the three info queries - PCM_INFO answered OK: the result is the specification\'s reading of THAT answer; answered with anything else: IoError and the driver stays un-set-up'),
   ('C20_snd_queries_nonvacuous', 'Proofs/SoundProofs.v', 'snd_queries_nonvacuous',
    'an answer no conforming device would send (direction 7, channels_min 200 > channels_max 3): the queries return exactly its fields')]}
+
+# ---- the monitors evaluated on the IMPLEMENTATION's observations, tied to the statements they stand for (Proofs/SoundMonProofs.v):
+# ---- "meaning" = what a true verdict implies, for any input list; "holds_of_model" = no false alarm on code that behaves like the model
+SPEC_ENTRY['imports'] += [m for m in ['Model.Owning', 'Proofs.OwningProofs', 'Extract.SoundIO', 'Proofs.SoundMonProofs'] if m not in SPEC_ENTRY['imports']]
+SPEC_ENTRY['theorems'] += [
+  ('C20_snd_monitor_2050_meaning', 'Proofs/SoundMonProofs.v', 'mon_ctl_meaning', "accepted line = 2 elements (request readable, >=4 writable) and the bytes decode to the caller's request"),
+  ('C20_snd_monitor_2050_fields', 'Proofs/SoundMonProofs.v', 'spec_decode_ctl_fields', 'the decoder unfolded to byte positions'),
+  ('C20_snd_monitor_2050_holds_of_model', 'Proofs/SoundMonProofs.v', 'mon2050_holds_of_model', 'pcm cmd / set_params / jack_remap / info query of the model pass'),
+  ('C20_snd_monitor_2050_holds_set_up', 'Proofs/SoundMonProofs.v', 'mon2050_holds_set_up', 'the three queries of set_up pass'),
+  ('C20_snd_monitor_2051_meaning', 'Proofs/SoundMonProofs.v', 'mon_ctl_result_meaning', 'Ok iff status OK, error for every other status'),
+  ('C20_snd_monitor_2051_holds_of_model', 'Proofs/SoundMonProofs.v', 'mon2051_holds_of_model', None),
+  ('C20_snd_monitor_2052_meaning', 'Proofs/SoundMonProofs.v', 'mon_tx_meaning', 'stream id le32, 1..period data bytes, 8 writable, params accepted'),
+  ('C20_snd_monitor_2052_holds_of_model', 'Proofs/SoundMonProofs.v', 'mon2052_holds_of_model', 'every message of the blocking pcm_xfer'),
+  ('C20_snd_monitor_2052_holds_nb', 'Proofs/SoundMonProofs.v', 'mon2052_holds_nb', 'the message of pcm_xfer_nb'),
+  ('C20_snd_monitor_2053_meaning', 'Proofs/SoundMonProofs.v', 'mon_xfer_meaning', None),
+  ('C20_snd_monitor_2053_holds_of_model', 'Proofs/SoundMonProofs.v', 'mon2053_holds_of_model', None),
+  ('C20_snd_monitor_2054_meaning', 'Proofs/SoundMonProofs.v', 'mon_nb_result_meaning', None),
+  ('C20_snd_monitor_2054_holds_of_model', 'Proofs/SoundMonProofs.v', 'mon2054_holds_of_model', None),
+  ('C20_snd_monitor_2055_meaning', 'Proofs/SoundMonProofs.v', 'mon_values_meaning', None),
+  ('C20_snd_monitor_2055_holds_of_model', 'Proofs/SoundMonProofs.v', 'mon2055_holds_of_model', None),
+  ('C20_snd_monitor_2056_meaning', 'Proofs/SoundMonProofs.v', 'mon_notif_meaning', None),
+  ('C20_snd_monitor_2056_holds_of_model', 'Proofs/SoundMonProofs.v', 'mon2056_holds_of_model', 'for recorded lengths up to 8'),
+  ('C20_snd_monitor_2057_meaning', 'Proofs/SoundMonProofs.v', 'mon_state_rule_meaning', None),
+  ('C20_snd_monitor_2057_holds_of_model', 'Proofs/SoundMonProofs.v', 'mon2057_holds_of_model', None),
+  ('C20_snd_monitor_2058_meaning', 'Proofs/SoundMonProofs.v', 'mon_snd_config_meaning', None),
+  ('C20_snd_monitor_2058_holds_of_model', 'Proofs/SoundMonProofs.v', 'mon2058_holds_of_model', None),
+  ('C20_snd_monitor_2059_meaning', 'Proofs/SoundMonProofs.v', 'mon_setup_order_meaning', 'prefix of JACK, PCM, CHMAP (stricter than the property: see the audit)'),
+  ('C20_snd_monitor_2059_holds_of_model', 'Proofs/SoundMonProofs.v', 'mon2059_holds_of_model', None),
+  ('C20_snd_monitor_2060_meaning', 'Proofs/SoundMonProofs.v', 'mon_no_panic_meaning', None),
+  ('C20_snd_monitor_2060_holds_of_model', 'Proofs/SoundMonProofs.v', 'mon2060_holds_of_model', None),
+  ('C20_snd_monitor_2061_meaning', 'Proofs/SoundMonProofs.v', 'mon_snd_config_bytes_meaning', None),
+  ('C20_snd_monitor_2061_holds_of_model', 'Proofs/SoundMonProofs.v', 'mon2061_holds_of_model', None),
+  ('C20_snd_monitor_2062_meaning', 'Proofs/SoundMonProofs.v', 'mon_values_raw_meaning', None),
+  ('C20_snd_monitor_2062_holds_of_model', 'Proofs/SoundMonProofs.v', 'mon2062_holds_of_model', None),
+  ('C20_snd_monitor_kinds', 'Proofs/SoundMonProofs.v', 'sound_monitor_true', 'verdict [1] of kind k = true of its function'),
+  ('C20_snd_monitor_1982_meaning', 'Proofs/SoundMonProofs.v', 'mon_snd_notif_meaning', "(C19 monitor that lives in SoundIO.v) nothing pending / id out of range: nothing touched; else re-posted under the same token, notified iff required, result = the specification's reading"),
+  ('C20_snd_monitor_1982_holds_of_model', 'Proofs/SoundMonProofs.v', 'mon1982_holds_of_model', "every observation read from the model's successor state and events, every device behaviour"),
+]
